@@ -145,3 +145,32 @@ func (a *Announce) VerifProcessRequest(idx int) string {
 // VerifNewAnnounce builds an Announce exactly as New does, minus starting the two background loops
 // (used where even the R-go rewrite is not applied).
 func VerifAdvIP(adv IPAdvertisement) net.IP { return adv.ip }
+
+// VerifAddNDPResponder opens a real NDP responder (ICMPv6 listener on the interface's link-local address) and
+// installs it under interface index idx. The returned function closes it.
+func (a *Announce) VerifAddNDPResponder(ifi *net.Interface, idx int) (func(), error) {
+	r, err := newNDPResponder(a.logger, ifi, a.shouldAnnounce)
+	if err != nil {
+		return nil, err
+	}
+	a.Lock()
+	a.ndps[idx] = r
+	a.Unlock()
+	return func() { _ = r.Close() }, nil
+}
+
+// VerifNDPGroups dumps the group bookkeeping of the NDP responder installed under idx.
+func (a *Announce) VerifNDPGroups(idx int) string {
+	a.RLock()
+	defer a.RUnlock()
+	r := a.ndps[idx]
+	if r == nil {
+		return ""
+	}
+	var gs []string
+	for g, n := range r.solicitedNodeGroups {
+		gs = append(gs, fmt.Sprintf("%s=%v", g, n))
+	}
+	sort.Strings(gs)
+	return strings.Join(gs, ",")
+}
